@@ -520,6 +520,12 @@ class Interp:
 
     LOOP_BOUND = 600
 
+    def _loop_header(self, s, f):
+        """Control is back on the loop header (after a completed iteration or `continue`): a new
+        line event natively, hence a scheduling point for modelled threads."""
+        if self.on_stmt is not None:
+            self.on_stmt(s, f)
+
     def s_While(self, s, f):
         n = 0
         while self.truth(self.eval(s.test, f)):
@@ -531,7 +537,8 @@ class Interp:
             except _Break:
                 return
             except _Continue:
-                continue
+                pass
+            self._loop_header(s, f)
         self.exec_block(s.orelse, f)
 
     def s_For(self, s, f):
@@ -544,7 +551,8 @@ class Interp:
             except _Break:
                 return
             except _Continue:
-                continue
+                pass
+            self._loop_header(s, f)
         self.exec_block(s.orelse, f)
 
     def s_Break(self, s, f):
